@@ -345,7 +345,8 @@ Inductive obs :=
 | OParse (toks : list bytes)
 | OChoose (enc : bytes) (uc : bool)
 (* ce / xce: values of Content-Encoding / X-VGI-Content-Encoding ([] = absent);
-   body_ok: decoding the body with the stamped codec gives the reference body;
+   body_ok: the response is the handler's: its status code, and decoding the body
+   with the stamped codec gives exactly the bytes the handler wrote (reference);
    raw_eq: the body bytes on the wire ARE the reference body (not compressed) *)
 | OFinish (ce xce : bytes) (body_ok raw_eq : bool)
 (* errs: SetCompressionLevel error per op; advert: VGI-Supported-Encodings
